@@ -193,7 +193,18 @@ impl<'a> Judge<'a> {
         l.traces += 1;
         l.transitions += list.len() as u64 + 1;
         let cred = self.cred;
-        let pres = Parts { jwt: cred.parts.jwt.clone(), disclosures: list.to_vec(), kb: None }.serialize(fmt);
+        // an item labelled kbslot* is not part of the disclosure list: it is put where the key-binding JWT goes
+        let mut kb: Option<String> = None;
+        let mut lst: Vec<String> = vec![];
+        for (d, lab) in list.iter().zip(labels.iter()) {
+            if lab.starts_with("kbslot") {
+                kb = Some(d.clone());
+            } else {
+                lst.push(d.clone());
+            }
+        }
+        let list: &[String] = &lst;
+        let pres = Parts { jwt: cred.parts.jwt.clone(), disclosures: list.to_vec(), kb }.serialize(fmt);
         let out = drive::verify(&pres, keys::issuer_dec(cred.cfg.alg, 0), None, None, fmt);
         let by_str: BTreeMap<&String, &Path> = self.k.genuine.iter().map(|(p, d)| (d, p)).collect();
         let present: BTreeSet<Path> = list.iter().filter_map(|d| by_str.get(d).map(|p| (*p).clone())).collect();
@@ -205,7 +216,8 @@ impl<'a> Judge<'a> {
                 "note": "replay re-issues the credential and rebuilds the list from the labels"});
             Violation::new("verify", class, site, foreign_kind.clone(), detail, case)
         };
-        let is_control = self.controls.contains(list);
+        // (with something in the key-binding slot a verifier may well refuse: not a control then)
+        let is_control = !labels.iter().any(|x| x.starts_with("kbslot")) && self.controls.contains(list);
         match &out {
             Out::Ok(c) => {
                 if c != &expect {
@@ -244,6 +256,13 @@ fn build_list(k: &Knowledge, labels: &[String]) -> Option<Vec<String>> {
     for lab in labels {
         if let Some(i) = lab.strip_prefix("genuine:") {
             out.push(k.genuine.get(i.parse::<usize>().ok()?)?.1.clone());
+        } else if let Some(i) = lab.strip_prefix("kbslot:genuine:") {
+            out.push(k.genuine.get(i.parse::<usize>().ok()?)?.1.clone());
+        } else if let Some(i) = lab.strip_prefix("kbslot_tilde:genuine:") {
+            out.push(format!("{}~", k.genuine.get(i.parse::<usize>().ok()?)?.1));
+        } else if let Some(ij) = lab.strip_prefix("joined:") {
+            let (i, j) = ij.split_once('~')?;
+            out.push(format!("{}~{}", k.genuine.get(i.parse::<usize>().ok()?)?.1, k.genuine.get(j.parse::<usize>().ok()?)?.1));
         } else {
             out.push(k.foreign.iter().find(|(l, _)| l == lab)?.1.clone());
         }
@@ -301,6 +320,40 @@ pub fn run_cred(u: &Value, strat: &Strat, cfg: &Cfg, foreign_items: usize, l: &m
                 judge.submit(&li2, &lab2, fmt, l);
             }
         }
+        // a genuine disclosure that is NOT in the list, offered in the key-binding slot (and, in the JSON form where
+        // the slot is a string of its own, followed by '~'); in the JSON form also two genuine disclosures joined by
+        // '~' as ONE list element: none of these is an element of the presented list
+        for i in 0..n {
+            if gl.contains(&i) {
+                continue;
+            }
+            let mut variants = vec![(format!("kbslot:genuine:{i}"), k.genuine[i].1.clone())];
+            if fmt == Fmt::Json {
+                variants.push((format!("kbslot_tilde:genuine:{i}"), format!("{}~", k.genuine[i].1)));
+            }
+            for (lab, item) in variants {
+                let mut lab2 = labels.clone();
+                let mut li2 = list.clone();
+                lab2.push(lab);
+                li2.push(item);
+                l.states += 1;
+                judge.submit(&li2, &lab2, fmt, l);
+            }
+            if fmt == Fmt::Json {
+                for j in 0..n {
+                    if j != i && !gl.contains(&j) {
+                        for at in [0, gl.len()] {
+                            let mut lab2 = labels.clone();
+                            let mut li2 = list.clone();
+                            lab2.insert(at, format!("joined:{i}~{j}"));
+                            li2.insert(at, format!("{}~{}", k.genuine[i].1, k.genuine[j].1));
+                            l.states += 1;
+                            judge.submit(&li2, &lab2, fmt, l);
+                        }
+                    }
+                }
+            }
+        }
         // one foreign item at every position
         for (flab, f) in &k.foreign {
             for at in 0..=gl.len() {
@@ -340,7 +393,7 @@ pub fn run_cred(u: &Value, strat: &Strat, cfg: &Cfg, foreign_items: usize, l: &m
 pub fn run(rep: &Report) {
     rep.set_rule("state = (credential, presented disclosure list L); transitions = appending one item of the intruder's knowledge base (genuine disclosures, a second credential's disclosures, the forgery catalogue, garbage) and submitting; every list of the stated families is submitted to the real verifier; oracle: Err, or exactly view(U,H,closure(L∩G)); holder-made lists must be accepted; non-trivial = accepted list that carries more items than it contributes claims (foreign/duplicate/orphan items present) with a non-empty genuine part");
     rep.assume("SHA-256 preimage resistance: the intruder cannot forge a disclosure matching a digest in the signed payload");
-    rep.assume("lists: every subset of G in every order for |G| <= 4 (issuance/reverse/rotations for |G| 5..6), each with one duplicated genuine item, each with one foreign item at every position; thorough adds pairs of foreign items around issuance-order subsets");
+    rep.assume("lists: every subset of G in every order for |G| <= 4 (issuance/reverse/rotations for |G| 5..6), each with one duplicated genuine item, each with one foreign item at every position, each with an absent genuine disclosure offered in the key-binding slot (JSON: also followed by ~, and two absent ones joined by ~ as one element); thorough adds pairs of foreign items around issuance-order subsets");
     let quick = rep.quick();
     let ts = if quick { trees(3, 2) } else { trees(3, 3) };
     let mut items = vec![];
@@ -378,6 +431,18 @@ pub fn run(rep: &Report) {
     }
     par_for(rep, items3.len(), |i, l| run_cred(&nts[items3[i].0], &items3[i].1, &Cfg::CHEAP, 1, l));
     rep.scope_done(json!({"scope": "S(2,2) with null / false / 0 / \"\" / {} / [] at every leaf position x {TopLevel, AllLevels}", "credentials": items3.len()}));
+    // large hidden values (a few KB): every forgery keeps or changes the salt of a disclosure that is long
+    let big = vec![json!({"iss": crate::gen::ISS, "exp": crate::gen::EXP, "a": "x".repeat(2000), "b": {"c": "y".repeat(1500), "d": 1}}), json!({"iss": crate::gen::ISS, "exp": crate::gen::EXP, "a": ["z".repeat(3000), "w".repeat(1100)]})];
+    let mut items4 = vec![];
+    for (ti, _) in big.iter().enumerate() {
+        for s in [Strat::Top, Strat::All] {
+            for cfg in [Cfg::CHEAP, Cfg { fmt: Fmt::Json, ..Cfg::CHEAP }] {
+                items4.push((ti, s.clone(), cfg));
+            }
+        }
+    }
+    par_for(rep, items4.len(), |i, l| run_cred(&big[items4[i].0], &items4[i].1, &items4[i].2, 1, l));
+    rep.scope_done(json!({"scope": "hidden values of 1100..3000 characters x {TopLevel, AllLevels} x {compact, JSON}: all list families with one foreign item", "credentials": items4.len()}));
     // chains: children without parents at depth
     let ch = chains(if quick { 4 } else { 5 });
     let mut items2 = vec![];
